@@ -176,7 +176,8 @@ def history(draw):
         ops = []
         for _ in range(draw(st.integers(1, 5))):
             k = draw(st.sampled_from(['same', 'same', 'same', 'resize', 'add',
-                                      'delete', 'touch', 'add-dir']))
+                                      'delete', 'touch', 'add-dir',
+                                      'edit-sub']))
             ops.append({
                 'k': k, 'sel': draw(st.integers(0, 50)),
                 'name': draw(st.sampled_from(['n1', 'n2', 'x/n3', 'n 4'])),
@@ -274,6 +275,7 @@ def run_case(desc):
             return skip('clock-shim-not-reached')
         state = {p: dict(f) for p, f in desc['files'].items()}
         nontrivial = False
+        sub_manifests = []
         for ri, rnd in enumerate(desc['rounds']):
             _, ts, _ = manifest_entries(A)
             if not ts:
@@ -346,10 +348,29 @@ def run_case(desc):
                         write_file(r, d + '/Manifest', lines, m)
                     for fp, fc in data.items():
                         state[fp] = {'c': fc}
+                    sub_manifests.append(d + '/Manifest')
                     classes.append('add-dir-with-manifest')
                     if m <= P:
                         nontrivial = True
                         classes.append('add-dir-with-manifest-old-mtime')
+                elif k == 'edit-sub':
+                    # a sub-Manifest edited by hand (a DIST line appended):
+                    # a modified file like any other
+                    live = [x for x in sub_manifests
+                            if os.path.exists(os.path.join(A, x))]
+                    if not live:
+                        continue
+                    sm = live[op['sel'] % len(live)]
+                    m = P + (now - P) * op['frac']
+                    if m <= P:
+                        m = P + 0.0005
+                    for r in (A, B):
+                        full = os.path.join(r, sm)
+                        with open(full, 'a') as f:
+                            f.write(f'DIST d{op["sel"]}.tar 1 MD5 00\n')
+                        os.utime(full, (m, m))
+                    nontrivial = True
+                    classes.append('sub-manifest-edited')
                 elif k == 'delete':
                     del state[p]
                     for r in (A, B):
